@@ -28,6 +28,33 @@ pub const SIGMA2: &[&str] = &[
     "---@operator add(A): B\n", "--[[ c ]] ", "--region r\n", "--endregion\n", "local x <const> = 1\n", "\0", "\r\n",
 ];
 
+
+/// Σ₃ — handler shortcuts: one fragment per node-level special case of the request handlers (semantic-token
+/// builder arms, signature-help receiver handling, rename/reference declaration kinds, language injection,
+/// description rendering). Every Σ₃ document starts with PRELUDE3, the declarations the fragments use.
+pub const PRELUDE3: &str = "local t = { a = { b = { c = 1 } } }\nfunction t.reset() end\nfunction t.set(x, y) end\nfunction t:m(x) end\n";
+pub const SIGMA3: &[&str] = &[
+    "t:reset()\n", "t.reset()\n", "t:set(1)\n", "t.set(1, 2)\n", "t:m(1)\n", "t.m(t, 1)\n", "t.a.b.c = 2\n",
+    "---@cast t.a.b.c integer\n", "---@cast t integer\n", "local s = t.a --[[@as string]]\n", "local m = require('m')\nm.f()\n",
+    "---@language lua\nlocal q = [[x = 1]]\n", "string.format('%d %s', 1, 'x')\n", "---@[deprecated]\n",
+    "---@alias X<T> T extends infer U and U or nil\n", "---@namespace N\n", "---@using N\n",
+    "---@generic T, U : A\n---@param f fun(x: T): U\nlocal function g(f) end\n", "---@type { a: 1, [string]: 2 }\nlocal o\n",
+    "for i = 1, 2 do t.set(i) end\n", "for k, v in pairs(t) do t.m(k, v) end\n", "local c <const>, d <close> = 1, nil\n",
+    "t.tab = { a = 1, ['b'] = 2, [3] = 3, f = function(self) end }\n", "--- desc `code` *em* [link](x) @param\nlocal z\n",
+    "---```lua\n--- local x = 1\n---```\n", "---@param x integer desc\n---@return integer r desc\nfunction t.p(x) return x end\n",
+    "---@class C<T>: P\n---@field f integer desc\n---@field [integer] string\nlocal C = {}\n", "---@enum E\nlocal E = { A = 1 }\n",
+    "---@alias A\n---| 'a' # one\n---| 'b'\n", "---@diagnostic disable: unused\n", "---@overload fun(a: integer): string\n",
+    "---@operator call(integer): string\n", "---@see C#f\n", "---@version >5.1\n", "---@source a.lua:1\n", "---@module 'm'\n",
+    "---@async\n---@nodiscard\n---@deprecated use x\n", "---@readonly\n", "goto l\n::l::\n", "t.x = t.a and t.a.b or not t\n",
+    "t.set(\n", "t:m(", "t:reset(", "return t\n",
+];
+
+/// text of a word of the named phase (Σ₃ words are prefixed with their declaration context)
+pub fn phase_text(name: &str, sigma: &[&str], w: &[usize]) -> String {
+    let body = word_text(sigma, w);
+    if name.starts_with("Σ3") { format!("{PRELUDE3}{body}") } else { body }
+}
+
 pub fn word_text(sigma: &[&str], w: &[usize]) -> String {
     let mut s = String::new();
     for &i in w {
